@@ -653,3 +653,27 @@ func (g *Gen) FooterCase() *Case {
 	}
 	return c
 }
+
+// ImmutCase: C15 - dump the inputs of merges before and after the merges and
+// persists took place; the dumps must be identical (and equal to the model's).
+func (g *Gen) ImmutCase() *Case {
+	c := &Case{Family: "immut"}
+	shape := 2 + g.R.Intn(3)
+	tree, _ := g.mergeTree(c, shape)
+	// dump slot 0 right after it was built, then after everything else happened
+	var ops []Op
+	first := -1
+	for i, o := range tree {
+		ops = append(ops, o)
+		if i == 0 {
+			ops = append(ops, Op{Code: OpObsAll, Slot: 0})
+			first = len(ops) - 1
+		}
+	}
+	last := g.lastSlot(tree)
+	ops = append(ops, Op{Code: OpReload, Slot: last, Kind: 1})
+	ops = append(ops, Op{Code: OpObsAll, Slot: 0})
+	c.Ops = ops
+	c.Equal = [][]int{{first, len(ops) - 1}}
+	return c
+}
